@@ -4,7 +4,7 @@
    Everything here holds for EVERY write script unless a hypothesis says otherwise. *)
 From Coq Require Import ZArith.
 From FV Require Import Base.Bytes Base.BytesLemmas Gen.Generated Codec.Varint Codec.NV Codec.Header Codec.Bodies Codec.Vars
-  Codec.ProtoProofs Parser.ReqModel Parser.StreamModel Parser.AbsStream Parser.ReqDrive Parser.StreamRefine Async.Conn.
+  Codec.ProtoProofs Parser.ReqModel Parser.ReqWire Parser.StreamModel Parser.AbsStream Parser.ReqDrive Parser.StreamRefine Async.Conn.
 From Coq Require Import ZifyBool ZifyNat ZifyN.
 Ltac Zify.zify_post_hook ::= Z.div_mod_to_equations.
 
@@ -1131,3 +1131,242 @@ Proof.
     + rewrite H in E. discriminate E.
 Qed.
 End Close.
+
+(* ------------------------------------------------------------------------------------------ *)
+(* Part 7: restatements                                                                        *)
+(* ------------------------------------------------------------------------------------------ *)
+
+(* item 6 with the epilogue spelled out (epilogue_shape): the two empty stream records, then EndRequest *)
+Theorem close_tail_log_shape maxc r1 disc code w1 x w' :
+  close_tail maxc r1 disc code w1 = Ok x w' -> (x = inr EK_Reset \/ exists rp, x = inl rp) ->
+  exists p2 r3 w2 ast ps,
+    set_stream (rsp r1) None = SetOk p2 /\
+    record_boundary maxc (mkR p2 (rwriteable r1) (rlock r1)) w1 = Ok (None, r3) w2 /\
+    wlog w2 = wlog w1 /\ exit_to_end disc code = Some (ast, ps) /\
+    let id := r_id (sreq (rsp r3)) in
+    wlog w' = wlog w2 ++ output_buffer (rsp r3) ++
+      (if rwriteable r1 then hdr_encode RT_Stdout id 0 0 ++ hdr_encode RT_Stderr id 0 0 ++ end_record ast ps id
+       else end_record ast ps id).
+Proof.
+  intros E Hx. destruct (close_tail_log maxc r1 disc code w1 x w' E Hx)
+    as (p2 & r3 & w2 & ep & H1 & H2 & H3 & H4 & H5 & H6 & H7 & H8).
+  destruct (exit_to_end disc code) as [[ast ps]|] eqn:Ex.
+  - exists p2, r3, w2, ast, ps. split; [exact H1|]. split; [exact H2|]. split; [exact H3|]. split; [reflexivity|].
+    cbv zeta. destruct (epilogue_shape (r_id (sreq (rsp r3))) disc code ast ps Ex) as (S1 & S2 & _).
+    rewrite H7. destruct (rwriteable r1).
+    + rewrite S1 in H6. injection H6 as <-. reflexivity.
+    + rewrite S2 in H6. injection H6 as <-. reflexivity.
+  - unfold epilogue in H6. rewrite Ex in H6. discriminate H6.
+Qed.
+
+(* Request::close as a whole: close_tail runs after writeable() returned Ok or Aborted; any other
+   error of writeable() is returned as it is, without a further write *)
+Corollary do_close_cases maxc r disc code w x w' :
+  do_close maxc r disc code w = Ok x w' ->
+  exists e r1 w1, do_writeable maxc r w = Ok (e, r1) w1 /\
+    (((e = None \/ e = Some EK_Aborted) /\ close_tail maxc r1 disc code w1 = Ok x w') \/
+     (exists k, e = Some k /\ k <> EK_Aborted /\ x = inr k /\ w' = w1)).
+Proof.
+  unfold do_close. intros E.
+  destruct (do_writeable maxc r w) as [[[k|] r1] w1|o w1]; [| |discriminate E].
+  - exists (Some k), r1, w1. split; [reflexivity|]. destruct (N.eqb_spec k EK_Aborted) as [Hk|Hk].
+    + subst k. left. tauto.
+    + right. exists k. injection E as <- <-. tauto.
+  - exists None, r1, w1. tauto.
+Qed.
+
+(* the record sequence in the wire vocabulary of Parser/ReqWire.v *)
+Definition chunk_rcd (stype id : N) (c : bytes) : rcd := mkRcd stype id c (zeros (auto_padding (len c))).
+
+Lemma rec_of_enc stype id c : rec_of stype id c = enc_rcd (chunk_rcd stype id c).
+Proof.
+  unfold rec_of, enc_rcd, enc_rcd_rsv, chunk_rcd, hdr_encode. cbn [rt rid rbody rpad].
+  rewrite len_zeros. change VERSION_V1 with 1. rewrite <- !app_assoc. reflexivity.
+Qed.
+
+Theorem stream_records_enc stype id data :
+  stream_records stype id data = enc_rcds (map (chunk_rcd stype id) (chunks data)).
+Proof.
+  unfold stream_records, enc_rcds. induction (chunks data) as [|c t IH]; [reflexivity|].
+  cbn [map concat flat_map]. rewrite IH, rec_of_enc. reflexivity.
+Qed.
+
+Lemma bytes_ok_chunks data : bytes_ok data -> Forall bytes_ok (chunks data).
+Proof.
+  induction data as [|data Hne IH] using chunks_ind; intros Hok; [constructor|].
+  rewrite chunks_eq by exact Hne. constructor; [apply bytes_ok_take; exact Hok|].
+  apply IH. apply bytes_ok_drop. exact Hok.
+Qed.
+
+Theorem stream_records_rcd_ok stype id data : stype < 256 -> id < 65536 -> bytes_ok data ->
+  Forall rcd_ok (map (chunk_rcd stype id) (chunks data)).
+Proof.
+  intros Ht Hid Hok. pose proof (chunks_sizes data) as Hs. pose proof (bytes_ok_chunks data Hok) as Hb.
+  rewrite Forall_forall in *. intros r Hr. apply in_map_iff in Hr. destruct Hr as (c & <- & Hc).
+  specialize (Hs c Hc). specialize (Hb c Hc). destruct (pad_rule (len c)) as [P1 _].
+  unfold rcd_ok, chunk_rcd. cbn [rt rid rbody rpad]. rewrite len_zeros.
+  repeat split; try lia; try assumption. apply bytes_ok_zeros.
+Qed.
+
+(* a reference decoder: cut a byte string into complete records (type, id, content) *)
+Fixpoint parse_records (fuel : nat) (log : bytes) : list (N * N * bytes) * bytes :=
+  match fuel with
+  | O => ([], log)
+  | S f =>
+    if len log <? 8 then ([], log) else
+    match hdr_decode (take 8 log) with
+    | HOk t id cl pl =>
+      if len log <? 8 + cl + pl then ([], log)
+      else let '(rs, rest) := parse_records f (drop (8 + cl + pl) log) in
+           ((t, id, take cl (drop 8 log)) :: rs, rest)
+    | _ => ([], log)
+    end
+  end.
+
+Lemma parse_rec_of stype id c tail f : known_type stype = true -> id < 65536 -> len c <= 65535 ->
+  parse_records (S f) (rec_of stype id c ++ tail) =
+    let '(rs, rest) := parse_records f tail in ((stype, id, c) :: rs, rest).
+Proof.
+  intros Ht Hid Hc. destruct (rec_of_wf stype id c Ht Hid Hc) as (W1 & W2 & W3 & W4 & _ & W6 & _).
+  cbv zeta in *. set (rec := rec_of stype id c) in *. set (pad := auto_padding (len c)) in *.
+  cbn [parse_records]. rewrite len_app.
+  destruct (N.ltb_spec (len rec + len tail) 8) as [H|_]; [lia|].
+  rewrite take_app_le by lia. rewrite W1.
+  destruct (N.ltb_spec (len rec + len tail) (8 + len c + pad)) as [H|_]; [lia|].
+  rewrite <- W4. rewrite drop_len_app.
+  rewrite drop_app_le by lia. rewrite take_app_le by (rewrite len_drop; lia). rewrite W6. reflexivity.
+Qed.
+
+(* the log of a successful write_all decodes to exactly the records of the chunks, nothing else *)
+Theorem parse_stream_records stype id data tail f : known_type stype = true -> id < 65536 ->
+  parse_records (length (chunks data) + f) (stream_records stype id data ++ tail) =
+    let '(rs, rest) := parse_records f tail in (map (fun c => (stype, id, c)) (chunks data) ++ rs, rest).
+Proof.
+  intros Ht Hid. unfold stream_records. pose proof (chunks_sizes data) as Hs.
+  induction (chunks data) as [|c t IH].
+  - cbn [length map concat app plus]. destruct (parse_records f tail). reflexivity.
+  - apply Forall_cons_iff in Hs. destruct Hs as [Hc Hs]. specialize (IH Hs).
+    cbn [length map concat plus]. rewrite <- app_assoc. rewrite parse_rec_of by (try assumption; lia).
+    rewrite IH. destruct (parse_records f tail) as [rs rest]. reflexivity.
+Qed.
+
+Corollary parse_stream_records_exact stype id data : known_type stype = true -> id < 65536 ->
+  let '(rs, rest) := parse_records (length (chunks data)) (stream_records stype id data) in
+  rest = [] /\ Forall (fun r => fst r = (stype, id)) rs /\ concat (map snd rs) = data.
+Proof.
+  intros Ht Hid. pose proof (parse_stream_records stype id data [] 0 Ht Hid) as H.
+  rewrite app_nil_r, Nat.add_0_r in H. rewrite H. cbn [parse_records]. rewrite app_nil_r.
+  split; [reflexivity|]. split.
+  - rewrite Forall_forall. intros r Hr. apply in_map_iff in Hr. destruct Hr as (c & <- & _). reflexivity.
+  - rewrite map_map. cbn [snd]. rewrite map_id. apply chunks_concat.
+Qed.
+
+(* item 5, the "iff": with the fuel the model supplies, Ready(Ok) exactly when the whole queue reached the log *)
+Corollary poll_output_ready_iff fuel r w p r' w' : poll_output fuel r w = (p, r', w') ->
+  (length (wscript w) + 1 < fuel)%nat ->
+  (p = PReady (inl tt) <-> wlog w' = wlog w ++ output_buffer (rsp r)).
+Proof.
+  intros E Hf. destruct (poll_output_spec fuel r w p r' w' E) as (n & Hn & Hlog & _ & _ & _ & _ & _ & _ & _ & _ & Hp).
+  cbv zeta in *. split.
+  - intros ->. destruct Hp as (Hp & _). rewrite Hlog, Hp. rewrite take_all by lia. reflexivity.
+  - intros Hw. rewrite Hlog in Hw. apply app_inv_head in Hw. apply (f_equal len) in Hw. rewrite len_take in Hw.
+    destruct p as [[[]|k]| |].
+    + reflexivity.
+    + exfalso. destruct Hp as [[_ Hp]|[Hp _]]; lia.
+    + exfalso. destruct Hp as [Hp _]. lia.
+    + tauto.
+Qed.
+
+(* poll_output at the level of the abstract parser state (Parser/AbsStream.v): only a_out moves *)
+Lemma sp_same_abs p p' n : sp_same_but_output p p' -> output_buffer p' = drop n (output_buffer p) ->
+  abs p' = mkA (a_B (abs p)) (a_space (abs p)) (a_parsed (abs p)) (a_raw (abs p)) (drop n (a_out (abs p)))
+               (a_req (abs p)) (a_stream (abs p)) (a_prem (abs p)) (a_pad (abs p)) (a_st (abs p)).
+Proof.
+  intros Hs Ho. destruct (sp_same_views _ _ Hs) as (V1 & V2 & _).
+  destruct Hs as (A1 & A2 & A3 & A4 & A5 & A6 & A7 & A8 & A9 & A10).
+  unfold abs. cbn [a_B a_space a_parsed a_raw a_out a_req a_stream a_prem a_pad a_st].
+  rewrite V1, V2, Ho, A1, A5, A6, A7, A8, A9, A10. reflexivity.
+Qed.
+
+(* ------------------------------------------------------------------------------------------ *)
+(* Part 8: the statements are about non-trivial runs                                           *)
+(* ------------------------------------------------------------------------------------------ *)
+
+Definition ex_world (ws : list N) (v : bool) : world := mkW [] ws [] [7] 0 1 0 false v [].
+
+(* cuts inside the header (3), a Pending, at the header/payload seam (5 = rest of the header), inside the
+   payload, inside the padding: the log is the record, for both kinds of transport *)
+Example ex_writer_cuts : forall v,
+  match writer_write_all 3 RT_Stdout 1 [1; 2; 3; 4; 5] (ex_world [3; 0; 5; 2; 4; 1] v) with
+  | Ok None w' => wlog w' = [7] ++ stream_records RT_Stdout 1 [1; 2; 3; 4; 5] /\ wscript w' = []
+  | _ => False
+  end.
+Proof. intros [|]; vm_compute; split; reflexivity. Qed.
+
+(* a failing transport: the log stops inside the record, nothing follows *)
+Example ex_writer_fault :
+  match writer_write_all 3 RT_Stdout 1 [1; 2; 3; 4; 5] (ex_world [3; 0; 6; W_ERR; 2] true) with
+  | Ok (Some k) w' => k = EK_Transport /\ wlog w' = [7] ++ take 9 (stream_records RT_Stdout 1 [1; 2; 3; 4; 5]) /\ wscript w' = [2]
+  | _ => False
+  end.
+Proof. vm_compute. repeat split; reflexivity. Qed.
+
+(* shutdown observed while a write is pending inside select *)
+Example ex_await_shutdown :
+  match await_write_all 9 true [1; 2; 3] (mkW [] [1; 0; 5] [] [] 0 1 2 false true []) with
+  | Halt ORet w' => wlog w' = [1] /\ stopped w' = true
+  | _ => False
+  end.
+Proof. vm_compute. split; reflexivity. Qed.
+
+Definition ex_sp : sp := mkSp (zeros 32) 0 0 0 0 [9; 9; 9; 9; 9] 2 (mkReq 1 1 1 []) (Some 5) 0 0 SStream.
+
+(* close on a keep-alive request with three bytes of parser output pending *)
+Example ex_close :
+  match close_tail 10 (mkR ex_sp true false) EXIT_Complete 0 (ex_world [2; 0; 1; 9; 3] false) with
+  | Ok (inl _) w' =>
+      wlog w' = [7] ++ [9; 9; 9] ++ hdr_encode RT_Stdout 1 0 0 ++ hdr_encode RT_Stderr 1 0 0 ++ end_record 0 0 1
+  | _ => False
+  end.
+Proof. vm_compute. reflexivity. Qed.
+
+Example ex_poll_output_wake :
+  match poll_output 10 (mkR ex_sp true false) (ex_world [2; 0; 1] false) with
+  | (PWake, r', w') => wlog w' = [7; 9; 9] /\ output_buffer (rsp r') = [9] /\ rlock r' = true
+  | _ => False
+  end.
+Proof. vm_compute. repeat split; reflexivity. Qed.
+
+Print Assumptions t_poll_write_spec.
+Print Assumptions t_poll_write_cases.
+Print Assumptions await_write_all_post.
+Print Assumptions await_write_all_spec.
+Print Assumptions await_write_all_fuel.
+Print Assumptions await_write_all_no_fault.
+Print Assumptions write_slices_post.
+Print Assumptions write_slices_spec.
+Print Assumptions write_slices_no_fault.
+Print Assumptions chunks_concat.
+Print Assumptions chunks_sizes.
+Print Assumptions chunks_full.
+Print Assumptions rec_of_wf.
+Print Assumptions stream_records_wf.
+Print Assumptions writer_write_all_post.
+Print Assumptions writer_write_all_spec.
+Print Assumptions writer_write_all_ok.
+Print Assumptions writer_write_all_no_fault.
+Print Assumptions stream_records_enc.
+Print Assumptions stream_records_rcd_ok.
+Print Assumptions parse_stream_records.
+Print Assumptions parse_stream_records_exact.
+Print Assumptions consume_output_buffer.
+Print Assumptions poll_output_post.
+Print Assumptions poll_output_spec.
+Print Assumptions poll_output_ready_iff.
+Print Assumptions poll_output_io_fuel.
+Print Assumptions sp_same_abs.
+Print Assumptions record_boundary_spec.
+Print Assumptions close_finish_spec.
+Print Assumptions close_tail_log.
+Print Assumptions close_tail_log_shape.
+Print Assumptions do_close_cases.
